@@ -1255,6 +1255,76 @@ def b23(ctx, rid):
         raise core.AnchorLost('get_filter / get_filter_fast of HierarchicalFilters: %d' % n)
 
 
+def b24(ctx, rid):
+    """a key reported with add_to_parents reaches the filter of every ancestor up to the root: the walk ends only where there is no
+    parent (or no node), never on an answer of a filter.  `The node already reports the key` is not a reason to stop - an
+    off-loaded or unknown filter answers NeedAdditionalCheck for every key while the in-memory root above it does not know it"""
+    prog = ctx.prog
+    n = 0
+    for f in prog.fns.values():
+        if f.file != 'src/filter/hierarchical.rs' or f.id != prog.fns[f.id].root or not f.id.endswith('::add_to_parents'):
+            continue
+        n += 1
+        key = 'every-ancestor-gets-the-key|%s' % f.id
+        bodies = [prog.fns[x] for x in prog.family(f.id)]
+        for c in f.calls:
+            for t in prog.resolve(c):
+                g = prog.fns.get(t)
+                if g is not None and g.file == f.file and g not in bodies:
+                    bodies += [prog.fns[x] for x in prog.family(prog.fns[t].root)]
+        asks = [c for g in bodies for c in g.calls if c.bb in g.reachable() and c.name in ('contains', 'contains_fast', 'check_filter', 'check_filter_fast')]
+        adds = [c for g in bodies for c in g.calls if c.bb in g.reachable() and c.name in ('add', 'add_to_filter')]
+        if not adds:
+            ctx.bad(rid, key, f.where(), 'add_to_parents does not add the key to a filter')
+        elif asks:
+            ctx.bad(rid, key, asks[0].where(), 'add_to_parents asks a filter (`%s`) on its way up: the walk can end before the root although the upper filters do not contain the key (an unknown / off-loaded filter answers NeedAdditionalCheck for everything)' % asks[0].name)
+        else:
+            ctx.ok(rid, key, f.where(), 'the walk is decided by parent links only')
+    if n < 1:
+        raise core.AnchorLost('HierarchicalFilters::add_to_parents: %d' % n)
+
+
+def b25(ctx, rid):
+    """a missing filter (None) means `unknown`: merging unknown into a filter must fail (the group filter degrades to unknown,
+    C10.B5), merging two unknowns succeeds.  In `<Option<T> as FilterTrait>::checked_add_assign` the constant answer `true` is
+    given only where both operands were seen to be None - `None => true // nothing to merge` on the other operand alone keeps a
+    bloom that lacks the keys of the filter-less child"""
+    prog = ctx.prog
+    n = 0
+    for f in prog.fns.values():
+        if f.id != prog.fns[f.id].root or 'std::option::Option<T> as filter::traits::FilterTrait' not in f.id or not f.id.endswith('::checked_add_assign'):
+            continue
+        n += 1
+        key = 'merge-of-unknown-fails|%s' % f.id
+        bad = None
+        fam = [prog.fns[x] for x in prog.family(f.id)]
+        for g in fam:
+            for (bb, si, kind, r) in g.defs().get(0, []):
+                if bb not in g.reachable() or kind != 'assign' or r['k'] != 'use':
+                    continue
+                k = op_const(r['o'])
+                if not k or not k.get('int'):
+                    continue
+                if g.id != f.id:
+                    bad = (g, bb, 'in a closure')
+                    continue
+                seen = set()
+                for sw in core.deciding_switches(g, bb):
+                    for o in core.origins(g, g.blocks[sw]['t']['o']):
+                        if o.kind == 'discr':
+                            for x in core.origins(g, {'c': o.data['p']}):
+                                if x.kind == 'arg':
+                                    seen.add(x.data)
+                if not {1, 2} <= seen:
+                    bad = (g, bb, 'decided on %s only' % (sorted('operand %d' % x for x in seen) or 'no operand'))
+        if bad:
+            ctx.bad(rid, key, bad[0].where(bad[1]), 'merging optional filters answers `merged` (%s) without both operands having been seen to be None: a filter-less (unknown) operand is treated as empty, the merged filter lacks its keys and answers `definitely absent` for them' % bad[2])
+        else:
+            ctx.ok(rid, key, f.where(), '`true` only for (None, None); otherwise the inner merge decides')
+    if n < 1:
+        raise core.AnchorLost('checked_add_assign of Option<T>: %d' % n)
+
+
 RULES = [
     Rule('C10.B1', 'every `definitely absent` answer lies in its owner and is controlled by that owner\'s justifying test; defaults are NeedAdditionalCheck', b1, 11),
     Rule('C10.B2', 'filter.add(key) dominates every insertion into the in-memory header map', b2, 2),
@@ -1278,5 +1348,7 @@ RULES = [
     Rule('C10.B21', 'every comparison with the group size in push counts slots of the children vector', b21, 1),
     Rule('C10.B22', 'a clone of a bloom filter keeps its off-loaded state', b22, 1),
     Rule('C10.B23', 'the filter of the closed-blob tree is read at self.root', b23, 2),
+    Rule('C10.B24', 'add_to_parents walks up by parent links only (no filter is asked on the way)', b24, 1),
+    Rule('C10.B25', 'merging optional filters succeeds without an inner merge only for (None, None)', b25, 1),
     Rule('C10.B9', 'the range merge can extend both bounds in one call', b9, 1),
 ]
